@@ -22,7 +22,8 @@ use crate::report::{Acc, Check, Tier};
 use crate::util;
 use crate::world::{self, Verdict};
 
-pub const DEVIATIONS: [&str; 22] = [
+pub const DEVIATIONS: [&str; 23] = [
+    "sublayout-refiled-under-key-id-in-upper-case",
     "inner-links-in-directory-matched-as-a-pattern",
     "inner-threshold-2-links-disagree",
     "inner-require-fails",
@@ -148,8 +149,23 @@ fn build(dir: &Path, tree: &Tree, devs: &BTreeSet<&str>) -> in_toto::models::Met
         world::block_text(&inner_block)
     };
     let sn = tree.step;
-    world::write(dir, &world::link_file(sn, filed_under), &inner_text);
-    let sub_name = if has(devs, "subdir-named-after-other-key") {
+    let refiled = has(devs, "sublayout-refiled-under-key-id-in-upper-case");
+    if refiled {
+        // nothing is re-signed: the key id of the signature entry and the file name are re-spelled
+        // in upper case, and the inner links sit in the directory named after that spelling
+        let mut v: Value = serde_json::from_str(&inner_text).unwrap();
+        for e in v["signatures"].as_array_mut().unwrap() {
+            if e["keyid"].as_str() == Some(filed_under.id().as_str()) {
+                e["keyid"] = json!(filed_under.id().to_uppercase());
+            }
+        }
+        world::write(dir, &format!("{sn}.{}.link", filed_under.prefix().to_uppercase()), &v.to_string());
+    } else {
+        world::write(dir, &world::link_file(sn, filed_under), &inner_text);
+    }
+    let sub_name = if refiled {
+        format!("{sn}.{}", filed_under.prefix().to_uppercase())
+    } else if has(devs, "subdir-named-after-other-key") {
         format!("{sn}.{}", k.h.prefix())
     } else if has(devs, "subdir-named-after-step-only") {
         sn.to_string()
@@ -280,6 +296,8 @@ fn applicable(tree: &Tree, d: &str) -> bool {
     }
     match d {
         "co:second-functionary-subdir-missing" | "co:second-functionary-subdir-disagrees" => tree.co,
+        // needs a letter in the prefix, or the two spellings are one
+        "sublayout-refiled-under-key-id-in-upper-case" => k().f.prefix().chars().any(|c| c.is_ascii_alphabetic()),
         "inner-links-in-directory-of-name-before-last-dot" => tree.step.contains('.'),
         "inner-links-in-directory-matched-as-a-pattern" => tree.step.contains(['?', '*', '[']),
         "level3-link-missing" | "level3-layout-signed-by-other-key" => tree.levels == 3,
@@ -298,7 +316,7 @@ fn conflict(a: &str, b: &str) -> bool {
     let group = |d: &str| -> u8 {
         match d {
             "inner-signed-by-G-filed-under-F" | "inner-signed-by-unauthorized-G-under-G" => 1,
-            "subdir-named-after-other-key" | "subdir-named-after-step-only" | "inner-links-in-parent-dir" | "inner-links-in-directory-of-name-before-last-dot" | "inner-links-in-directory-matched-as-a-pattern" => 2,
+            "sublayout-refiled-under-key-id-in-upper-case" | "subdir-named-after-other-key" | "subdir-named-after-step-only" | "inner-links-in-parent-dir" | "inner-links-in-directory-of-name-before-last-dot" | "inner-links-in-directory-matched-as-a-pattern" => 2,
             "inner-link-by-unauthorized-key" | "inner-link-by-key-outside-inner-table" | "inner-link-missing:first" | "inner-threshold-2-one-link" | "inner-threshold-2-links-disagree" => 3,
             _ => 0,
         }
